@@ -56,7 +56,7 @@ class Obj(Engine):
                        'SignatureHash / RawSignatureHash', 'VerifyScript']
     stubbed_components = ['nothing: no environment is involved in these properties']
     sim_time_note = 'no clock or timers: the explored dimension is the order of operations on an aliased object graph'
-    nontrivial_rule = ('run = one history (systematic preamble: every history of length <= 3 over a 23-operation alphabet on two initial transactions; then seeded histories of '
+    nontrivial_rule = ('run = one history (systematic preamble: every history of length <= 3 over a 24-operation alphabet on two initial transactions; then seeded histories of '
                        '4-60 operations) on a pool of <= 6 handles; distinct = distinct trace-shape digest (operation kinds and targets); '
                        'non-trivial = >= 2 handles interacted (copy/snapshot/block/eq) or a cache was planted before an edit')
     quick_runs = 4000
@@ -91,7 +91,8 @@ class Obj(Engine):
         if r < 0.72:
             return {'op': 'rt', 'h': h}
         if r < 0.76:
-            return {'op': 'block', 'hs': [rng.randrange(MAXH) for _ in range(rng.randint(1, 3))], 'header': gen.gen_header(rng)}
+            return {'op': 'block', 'hs': [rng.randrange(MAXH) for _ in range(rng.randint(1, 3))], 'header': gen.gen_header(rng),
+                    'wire': rng.random() < 0.4}
         if r < 0.84:
             return {'op': 'ids', 'h': h}
         if r < 0.89:
@@ -169,6 +170,7 @@ class Obj(Engine):
                 {'op': 'eq', 'a': 0, 'b': 1},
                 {'op': 'sighash', 'h': 0, 'i': 0, 'hashtype': 3, 'version': 0, 'script': 'ab51', 'amount': 0},
                 {'op': 'block', 'hs': [0], 'header': {'version': 2, 'prev': '00' * 32, 'merkle': '00' * 32, 'time': 1, 'bits': 2, 'nonce': 3}},
+                {'op': 'block', 'hs': [0, 1], 'header': {'version': 2, 'prev': '00' * 32, 'merkle': 'ab' * 32, 'time': 1, 'bits': 2, 'nonce': 3}, 'wire': True},
                 {'op': 'set', 'h': 1, 'field': 'vin.scriptSig', 'i': 0, 'value': '00'},
             ]
             type(self).ALPHABET = A
@@ -503,9 +505,18 @@ class Obj(Engine):
                 return None
             hd = copy.deepcopy(a['header'])
             hd['txs'] = mods
-            hd['merkle'] = RW.block_merkle(hd).hex()
+            if not a.get('wire'):
+                hd['merkle'] = RW.block_merkle(hd).hex()
             try:
-                blk = C.CBlock(hd['version'], bytes.fromhex(hd['prev']), b'\x00' * 32, hd['time'], hd['bits'], hd['nonce'], txs)
+                if a.get('wire'):
+                    # a block as it comes off the wire: the declared root is whatever the header says
+                    blk = C.CBlock.deserialize(RW.enc_block(hd))
+                    for m in hd['txs']:
+                        if not RW.tx_has_witness(m):
+                            m['wit'] = None
+                    ctx.probe('block-from-wire-with-foreign-root')
+                else:
+                    blk = C.CBlock(hd['version'], bytes.fromhex(hd['prev']), b'\x00' * 32, hd['time'], hd['bits'], hd['nonce'], txs)
             except Exception as e:
                 ctx.check(False, 'C09.ser', 'building a block from %d transactions raised %s: %s' % (len(txs), type(e).__name__, e))
                 return None
